@@ -4,6 +4,7 @@ go 1.18
 
 require (
 	github.com/irai/packet v0.0.0
+	gitlab.com/golang-commonmark/puny v0.0.0-20191124015043-9f83538fa04f
 	golang.org/x/net v0.34.0
 	gopkg.in/yaml.v2 v2.4.0
 )
@@ -12,7 +13,6 @@ require (
 	github.com/mdlayher/netx v0.0.0-20230430222610-7e21880baee8 // indirect
 	github.com/vishvananda/netlink v1.3.0 // indirect
 	github.com/vishvananda/netns v0.0.5 // indirect
-	gitlab.com/golang-commonmark/puny v0.0.0-20191124015043-9f83538fa04f // indirect
 	golang.org/x/sys v0.29.0 // indirect
 )
 
